@@ -551,6 +551,17 @@ func init() {
 		run.Explanation = "E-DT (single symbolic iteration per pass) + E-SIB clones: FindShortVector is compared with Algorithm 4 of Pornin 2020: initial state (N_u, N_v, p, u, v) = (ℓ², k²+1, ℓk, (ℓ mod 2^128, 0), (k, 1)); each iteration swaps (u, N_u) with (v, N_v) together exactly when N_u < N_v, returns the post-swap (v_0, v_1) exactly when len(N_v) <= 254, shifts by s = max(len p − len N_v, 0), and moves u_0 and u_1 by the same ±(v << s) with the sign of p, N_u by +(N_v << 2s) ∓ (p << (s+1)) and p by ∓(N_v << s); pass 2 inherits exactly the post-swap state shrunk to 384 bits, entered exactly when N_u is safe to shrink. Engine E-LIN in wrap mode: Int128 add/sub/neg/shl(n) for every n, Abs, IsNegative, isZero and the int384/int512 Add, AddShifted, SubShifted, ShiftLimbs (every shift count), IsNegative, PositiveLt, SafeToShrink, FromInt512 are exact as affine congruences modulo 2^128 / 2^384 / 2^512 over the input words. (The syntactic clone comparison of the two passes / four prologues planned in the design was withdrawn: it fired on behaviour-preserving edits of one clone; each pass and each prologue is specified on its own instead.)"
 		run.NotDecided = []string{"termination and the bit-length bounds that keep (d0, d1) within 128 bits", "that the torsion statement follows (algebra)"}
 		run.Exhaustive = true
+		latticeRules(c)
+	}
+}
+
+// latticeRules: the rules of C16 (short-vector reduction, wide-integer exactness, the
+// ABGLSV-Pornin prologues and inner loops).  Also run by the properties whose verification
+// equation goes through this code (C01, C02, C09): an honest signature only verifies when the
+// reduction terminates with a correct short vector.
+func latticeRules(c *Ctx) {
+	run := c.Run
+	{
 		if !c.Preload("amd64") {
 			return
 		}
